@@ -76,8 +76,9 @@ Proof. destruct v; simpl; lia. Qed.
 Lemma join_len sepr (texts : list str) : (list_sum (map (@length N) texts) <= length (join sepr texts))%nat.
 Proof.
   induction texts as [|x t IH]; [simpl; lia|].
-  cbn [join map list_sum]. rewrite app_length. destruct t as [|y t']; [simpl; lia|].
-  rewrite app_length. lia.
+  cbn [join map]. rewrite app_length. destruct t as [|y t']; [simpl; lia|].
+  rewrite app_length. change (list_sum (length x :: map (@length N) (y :: t')))
+    with (length x + list_sum (map (@length N) (y :: t')))%nat. lia.
 Qed.
 
 Lemma shared_ns_spec m n : shared_ns m = Some n ->
@@ -151,7 +152,6 @@ Section Main.
       rewrite EP. apply mk_rt; [exists c, (t ++ [77]); rewrite E; auto| |simpl; lia|simpl; lia].
       apply reads_num; [exists c, (t ++ [77]); rewrite E; auto|exact SC|]. intro rest.
       rewrite (dec_routing py_float py_dec py_imag tok rest GR), (H_dec_str_inverse tok Gd). reflexivity.
-    - discriminate.
     - apply andb_true_iff in Gv as [Gi PL]. pose proof PL as PL'. unfold imag_plain in PL'.
       apply andb_true_iff in PL' as [DF _].
       destruct (imag_shape tok DF) as (sg & c & t & Hs & E & Dc & _ & _).
@@ -182,7 +182,7 @@ Section Main.
 
   Lemma stripped_key k n : G k = true -> key_ns k = Some n ->
     elem_ok (pr pc true k) (bare k) 1 /\ (1 <= 4 * length (pr pc true k))%nat /\ name_ok n = true
-    /\ (match k with VSym _ _ (Some _) => False | _ => ns_key n (bare k) = k end).
+    /\ (match k with VSym _ _ (Some _) => True | _ => ns_key n (bare k) = k end).
   Proof.
     intros Gk K. destruct k; try discriminate; simpl in K, Gk; subst ns.
     - unfold kw_ok3 in Gk. apply andb_true_iff in Gk as [H1 H2]. pose proof H2 as H2'. simpl in H2'.
@@ -202,7 +202,7 @@ Section Main.
       + exists c, t. simpl. auto.
       + simpl. apply (reads_sym py_float py_dec py_imag py_uuid py_inst re_ok None nm); auto.
       + simpl. rewrite E. simpl. lia.
-      + destruct meta; [|reflexivity]. simpl. auto.
+      + destruct meta; [exact I|reflexivity].
   Qed.
 
   (** ** maps, given the entries *)
@@ -210,7 +210,7 @@ Section Main.
     forallb (fun kv => G (fst kv) && G (snd kv)) m = true ->
     nsmap_ok pc m = true ->
     elem_ok (mapbody pc m) (VMap false m None) (2 + msize m)
-    /\ (2 + msize m <= 4 * length (mapbody pc m))%nat.
+    /\ (4 + msize m <= 4 * length (mapbody pc m))%nat.
   Proof.
     intros IH GM NS. unfold mapbody, nsmap_ok in *.
     destruct (if p_nsmaps pc then shared_ns m else None) as [n|] eqn:SH.
@@ -227,23 +227,25 @@ Section Main.
                    /\ map (fun kv => (ns_key n (fst kv), snd kv)) (map e_pair es) = m
                    /\ (list_sum (map e_sz es) <= msize m)%nat
                    /\ (msize m <= 4 * list_sum (map (fun e => length (e_text e)) es))%nat).
-      { unfold es. clear es. revert GM NS KN. clear NEm. induction IH as [|kv t [RK RV] _ IHt]; intros GM NS KN.
-        - repeat split; [constructor|simpl; lia|simpl; lia].
+      { unfold es. clear es. revert GM NS KN. clear NEm SH. induction IH as [|kv t [RK RV] _ IHt]; intros GM NS KN.
+        - split; [constructor|]. split; [reflexivity|]. split; unfold msize; simpl; lia.
         - simpl in GM, NS. apply andb_true_iff in GM as [Gkv GM]. apply andb_true_iff in Gkv as [Gk Gv].
           apply andb_true_iff in NS as [NK NS].
           destruct (IHt GM NS (fun kv' I => KN kv' (or_intror I))) as (A & B & C & D).
           destruct (stripped_key (fst kv) n Gk (KN kv (or_introl eq_refl))) as (EK & LK & _ & BK).
           destruct (RV Gv) as (EV & LV).
           assert (BK' : ns_key n (bare (fst kv)) = fst kv).
-          { destruct (fst kv); try exact BK. destruct meta; [discriminate|exact BK]. }
+          { revert NK BK. destruct (fst kv); intros NK BK; try exact BK. destruct meta; [discriminate|exact BK]. }
           assert (VK : vsize (fst kv) = 1%nat).
-          { destruct (fst kv); try reflexivity; try discriminate. destruct meta; [discriminate|reflexivity]. }
+          { pose proof (KN kv (or_introl eq_refl)) as KK. revert NK KK.
+            destruct (fst kv); intros NK KK; try reflexivity; try discriminate.
+            destruct meta; [discriminate|reflexivity]. }
           repeat split.
           + constructor; [split; assumption|exact A].
-          + simpl. unfold e_pair at 1. cbn [fst snd]. rewrite BK', B. destruct kv; reflexivity.
-          + simpl. unfold e_sz at 1. cbn [fst snd]. unfold msize in *. simpl. rewrite VK. lia.
-          + simpl. unfold e_text at 1. cbn [fst snd]. unfold msize in *. simpl. rewrite app_length. simpl.
-            rewrite VK. lia. }
+          + cbn [map]. f_equal; [|exact B]. unfold e_pair. cbn [fst snd]. rewrite BK'. destruct kv; reflexivity.
+          + cbn [map list_sum fold_right]. unfold e_sz at 1. cbn [fst snd]. unfold msize in *. cbn [map list_sum fold_right]. rewrite VK. unfold list_sum in *. lia.
+          + cbn [map list_sum fold_right]. unfold e_text at 1. cbn [fst snd]. unfold msize in *. cbn [map list_sum fold_right].
+            rewrite app_length. cbn [length]. rewrite VK. unfold list_sum in *. lia. }
       destruct OK as (OK & EM & SZ & LEN).
       assert (TX : map (fun kv => pr pc true (fst kv) ++ 32 :: pr pc false (snd kv)) m = map e_text es).
       { unfold es. rewrite map_map. reflexivity. }
@@ -262,12 +264,13 @@ Section Main.
       assert (OK : Forall (e_ok py_float py_dec py_imag py_uuid py_inst re_ok) es
                    /\ (msize m <= 4 * list_sum (map (fun e => length (e_text e)) es))%nat).
       { unfold es. clear es NS SH. revert GM. induction IH as [|kv t [RK RV] _ IHt]; intros GM.
-        - split; [constructor|simpl; lia].
+        - split; [cbn [map]; constructor|unfold msize; simpl; lia].
         - simpl in GM. apply andb_true_iff in GM as [Gkv GM]. apply andb_true_iff in Gkv as [Gk Gv].
           destruct (IHt GM) as (A & D). destruct (RK Gk) as (EK & LK). destruct (RV Gv) as (EV & LV).
           split.
           + constructor; [split; assumption|exact A].
-          + simpl. unfold e_text at 1. cbn [fst snd]. unfold msize in *. simpl. rewrite app_length. simpl. lia. }
+          + cbn [map list_sum fold_right]. unfold e_text at 1. cbn [fst snd]. unfold msize in *. cbn [map list_sum fold_right].
+            rewrite app_length. cbn [length]. unfold list_sum in *. lia. }
       destruct OK as (OK & LEN).
       assert (EM : map e_pair es = m).
       { unfold es. rewrite map_map. unfold e_pair. cbn [fst snd]. clear. induction m as [|[k v] t IH]; [reflexivity|].
@@ -336,7 +339,7 @@ Section Main.
 
   Lemma seq_core k l : plain_kind k = true -> Forall RT l -> forallb G l = true ->
     elem_ok (open_of k ++ join sp (map (pr pc false) l) ++ [close_of k]) (VSeq k l None) (2 + list_sum (map vsize l))
-    /\ (2 + list_sum (map vsize l) <= 4 * length (open_of k ++ join sp (map (pr pc false) l) ++ [close_of k]))%nat.
+    /\ (4 + list_sum (map vsize l) <= 4 * length (open_of k ++ join sp (map (pr pc false) l) ++ [close_of k]))%nat.
   Proof.
     intros PK IH GL. destruct (elems_ok l IH GL) as (OK & LEN).
     pose proof (reads_plain_seq py_float py_dec py_imag py_uuid py_inst re_ok k _ PK OK) as R.
@@ -398,7 +401,7 @@ Section Main.
         apply (with_meta meta _ (VSeq KQueue l None) (VSeq KQueue l meta) _ H0 GM).
         * repeat split; [eexists _, _; split; [reflexivity|vm_compute; reflexivity]| |lia].
           exact (reads_queue py_float py_dec py_imag py_uuid py_inst re_ok _ (VSeq KList l None) (VSeq KQueue l None) _ A1 A2 eq_refl).
-        * rewrite app_length. lia.
+        * rewrite ?app_length in B. rewrite ?app_length. cbn [length t_queue t_py open_of app] in *. rewrite ?app_length in *. cbn [length] in *. lia.
         * destruct meta; reflexivity.
       + (* #py [ ] *)
         destruct meta; [discriminate|]. destruct (seq_core KVec l eq_refl H GL) as ((A1 & A2 & A3) & B).
@@ -407,21 +410,21 @@ Section Main.
         simpl app at 1. cbn [mzsize]. rewrite Nat.add_0_r. split.
         * repeat split; [eexists _, _; split; [reflexivity|vm_compute; reflexivity]| |lia].
           exact (reads_py py_float py_dec py_imag py_uuid py_inst re_ok _ (VSeq KVec l None) (VSeq KPyList l None) _ A1 A2 eq_refl).
-        * rewrite app_length. lia.
+        * rewrite ?app_length in B. rewrite ?app_length. cbn [length t_queue t_py open_of app] in *. rewrite ?app_length in *. cbn [length] in *. lia.
       + destruct meta; [discriminate|]. destruct (seq_core KList l eq_refl H GL) as ((A1 & A2 & A3) & B).
         change (open_of KPyTuple ++ join sp (map (pr pc false) l) ++ [close_of KPyTuple])
           with (t_py ++ (open_of KList ++ join sp (map (pr pc false) l) ++ [close_of KList])).
         simpl app at 1. cbn [mzsize]. rewrite Nat.add_0_r. split.
         * repeat split; [eexists _, _; split; [reflexivity|vm_compute; reflexivity]| |lia].
           exact (reads_py py_float py_dec py_imag py_uuid py_inst re_ok _ (VSeq KList l None) (VSeq KPyTuple l None) _ A1 A2 eq_refl).
-        * rewrite app_length. lia.
+        * rewrite ?app_length in B. rewrite ?app_length. cbn [length t_queue t_py open_of app] in *. rewrite ?app_length in *. cbn [length] in *. lia.
       + destruct meta; [discriminate|]. destruct (seq_core KSet l eq_refl H GL) as ((A1 & A2 & A3) & B).
         change (open_of KPySet ++ join sp (map (pr pc false) l) ++ [close_of KPySet])
           with (t_py ++ (open_of KSet ++ join sp (map (pr pc false) l) ++ [close_of KSet])).
         simpl app at 1. cbn [mzsize]. rewrite Nat.add_0_r. split.
         * repeat split; [eexists _, _; split; [reflexivity|vm_compute; reflexivity]| |lia].
           exact (reads_py py_float py_dec py_imag py_uuid py_inst re_ok _ (VSeq KSet l None) (VSeq KPySet l None) _ A1 A2 eq_refl).
-        * rewrite app_length. lia.
+        * rewrite ?app_length in B. rewrite ?app_length. cbn [length t_queue t_py open_of app] in *. rewrite ?app_length in *. cbn [length] in *. lia.
     - (* maps *)
       intro Gv. simpl in Gv. apply andb_true_iff in Gv as [GMm GM]. apply andb_true_iff in GMm as [GE NS].
       destruct (map_core m H GE NS) as ((A1 & A2 & A3) & B).
@@ -429,7 +432,7 @@ Section Main.
       + destruct meta; [discriminate|]. cbn [mzsize]. rewrite Nat.add_0_r. split.
         * repeat split; [eexists _, _; split; [reflexivity|vm_compute; reflexivity]| |lia].
           exact (reads_py py_float py_dec py_imag py_uuid py_inst re_ok _ (VMap false m None) (VMap true m None) _ A1 A2 eq_refl).
-        * rewrite app_length. simpl length at 1. lia.
+        * rewrite ?app_length in B. rewrite ?app_length. cbn [length t_queue t_py open_of app] in *. rewrite ?app_length in *. cbn [length] in *. lia.
       + apply gmeta_inv in GM.
         apply (with_meta meta _ (VMap false m None) (VMap false m meta) _ H0 GM).
         * repeat split; [exact A1| |lia].
